@@ -147,11 +147,15 @@ func TryPack(msg *dns.Msg, consume func([]byte) error) (handled bool, err error)
 	// touched.
 	sizeProbe := *msg
 	sizeProbe.Compress = false
-	if sizeProbe.Len() > packBufferSize {
+	size := sizeProbe.Len()
+	if size > packBufferSize {
 		return false, nil
 	}
 
 	state := packStatePool.Get().(*packState)
+	// The uncompressed length bounds every byte this pack can write;
+	// release wipes that much, so the next pack starts from zeroes.
+	state.used = size
 	defer state.release()
 
 	compress := msg.Compress && msgIsCompressible(msg)
@@ -309,7 +313,9 @@ type packState struct {
 	compression map[string]int
 	rr          rrView
 	opt         dns.OPT
-	buf         [packBufferSize]byte
+	// used bounds the bytes of buf the current pack may have written.
+	used int
+	buf  [packBufferSize]byte
 }
 
 // packInto encodes msg into state.buf, returning the length and whether the
@@ -475,6 +481,13 @@ var packStatePool = sync.Pool{
 // option list, and the dictionary's keys are the message's owner names — any
 // of them still referenced from the pool would keep the whole message alive.
 func (state *packState) release() {
+	// The library packs into a freshly zeroed array and relies on it: where
+	// a field is skipped rather than written (an A record holding a 16-byte
+	// address advances four octets without storing any) its output carries
+	// zeroes. The pooled buffer must offer the same, or those octets would
+	// be whatever an earlier message left there.
+	clear(state.buf[:state.used])
+	state.used = 0
 	state.rr.RR = nil
 	state.rr.hdr = dns.RR_Header{}
 	state.opt = dns.OPT{}
